@@ -137,7 +137,11 @@ class CatalogMachine(Machine):
                      rng.randrange(data.shape[1])] = rng.pick(
                          [np.nan, np.inf])
         out['data'] = enc(data)
-        out['error'] = enc(np.abs(g.normal(1.0, 0.1, data.shape)) + 0.1)
+        err = np.abs(g.normal(1.0, 0.1, data.shape)) + 0.1
+        if cfg.get('nan_pixels') and rng.chance(0.5):
+            err[rng.randrange(data.shape[0]),
+                rng.randrange(data.shape[1])] = np.nan
+        out['error'] = enc(err)
         out['background'] = enc(g.normal(5.0, 0.2, data.shape))
         mask = g.random(data.shape) < 0.03
         out['mask'] = enc(mask)
